@@ -257,6 +257,49 @@ def _literal_result(ctx, body, base, depth=0):
     return {"kind": "expr", "calls": [], "variants": sorted(variants)}
 
 
+def _passed_on_error(body, rv, lb=None):
+    """rv = `Err(op)`: if op is (a From/Into conversion of) the Err payload of another Result x: (operand x, block of
+    the test on x)."""
+    if not rv.get("ops") or rv["ops"][0].get("k") not in ("move", "copy"):
+        return None
+    o = body.origin(rv["ops"][0], through_calls=True)
+    if o[0] != "place":
+        return None
+    pr = o[1]["p"]
+    idx = [k for k, p in enumerate(pr) if isinstance(p, dict) and p.get("dc") == "Err"]
+    if not idx or idx[-1] != len(pr) - 2:
+        return None
+    x = {"k": "copy", "pl": {"l": o[1]["l"], "p": pr[:idx[-1]]}}
+    # the test on x: the closest dominating switch that reads the discriminant of (a copy of) x
+    tb = None
+    if lb is not None:
+        def sig_of(o_):
+            if o_[0] == "place":
+                return ("place", _place_sig(o_[1]["l"], o_[1]["p"]))
+            if o_[0] in ("call", "agg", "rv"):
+                return (o_[0], o_[1])
+            if o_[0] == "multi":
+                return ("multi", o_[1])
+            return None
+        want = sig_of(body.origin(x, through_calls=False))
+        for (d, s_) in dominating_edges(body, lb):
+            si = body.switch_info(d)
+            if si and si["kind"] == "discr" and si.get("adt") in ("std::result::Result", "std::option::Option"):
+                if want is not None and sig_of(body.origin({"pl": si["place"]}, through_calls=False)) == want:
+                    tb = d
+    return x, tb
+
+
+def _place_sig(l, projs):
+    return (l, tuple((p.get("dc"), p.get("f")) if isinstance(p, dict) else p for p in projs if p != "deref"))
+
+
+def _err_payload_ty(body, x):
+    ty = local_ty(body, x) or ""
+    m = re.match(r"std::result::Result<.*, ([^,]+(?:<.*>)?)>$", ty)
+    return m.group(1) if m else None
+
+
 def _result_literals(body, bb, rv, line, depth=0, seen=None):
     """The return value `_0 = rv`: if rv merely passes on another local (the result of an inlined helper, a value
     built on several branches), the literals / calls that local is given, each at the block where it is given."""
@@ -305,6 +348,14 @@ def exits(ctx, body):
         for st in blk["stmts"]:
             if st["k"] == "assign" and st["lhs"]["l"] == 0 and not st["lhs"]["p"]:
                 for (lb, rv, line) in _result_literals(body, b, st["rv"], st["line"]):
+                    src = _passed_on_error(body, rv, lb) if rv["k"] == "agg" and rv.get("variant") == "Err" else None
+                    if src is not None:
+                        # `Err(e.into())` with e the error of an inner Result x: what `x?` does
+                        x, tb = src
+                        cause = classify_cause(ctx, body, x)
+                        ety = rv.get("residual_of") or _err_payload_ty(body, x)
+                        out.append({"bb": lb, "kind": "residual", "err_ty": ety, "cause": cause, "try_bb": tb, "try_op": x})
+                        continue
                     if rv["k"] == "agg" and rv.get("what") == "adt" and rv.get("variant") in ("Ok", "Err"):
                         e = symex(body, rv["ops"][0]) if rv["ops"] else ("const", None)
                         out.append({"bb": lb, "kind": rv["variant"].lower(), "value": e, "atoms": body.atoms(rv["ops"][0]) if rv["ops"] else set(),
@@ -372,6 +423,24 @@ def exits_rule(ctx):
     counters = {}
     for role, body in _role_bodies(ctx).items():
         for e in exits(ctx, body):
+            if e["kind"] == "err":
+                # an explicit `return Err(..)`: not a `?`, but if it is taken because a completion / delivery / enqueue
+                # failed it is exactly the exit that must not exist (`send(..).map_err(|_| E)?` comes down to this)
+                for (d, s_) in reversed(dominating_edges(body, e["bb"])):
+                    si = body.switch_info(d)
+                    if not si or si["kind"] != "discr" or si.get("adt") != "std::result::Result" or body.edge_value(d, s_) != [1]:
+                        continue
+                    c = classify_cause(ctx, body, {"k": "copy", "pl": si["place"]})
+                    if c.get("kind") in ("complete-failed", "deliver-failed", "enqueue-failed"):
+                        arm = _arm_label(ctx, role, body, e["bb"])
+                        desc = c["kind"] + ":" + (c.get("call") or "")
+                        k = (role, arm, desc)
+                        counters[k] = counters.get(k, 0) + 1
+                        out.append(Inst("EXITS", "%s:%s:%s#%d" % (role, arm, short_ty(desc), counters[k]), False, body.site(e["bb"]),
+                                        "explicit error return taken when %s fails" % short_ty(c.get("call") or c["kind"]),
+                                        "allowed causes for %s: %s" % (role, [n for n, _ in ALLOWED.get(role, [])])))
+                    break
+                continue
             if e["kind"] != "residual":
                 continue
             c = e["cause"]
